@@ -5,5 +5,6 @@ CONSTANTS
   Scope = "transitive"
   WithTcp = FALSE
 VIEW View
-PROPERTIES EmitProp
+INVARIANTS InvWellFormed InvErrClasses InvStoredSetsAlwaysCompile
+PROPERTIES PropAcceptIsGlobal EmitProp
 CHECK_DEADLOCK FALSE
